@@ -18,6 +18,10 @@ type ctx struct {
 	res    *core.Result
 	rng    *core.Rand
 	known  *knownFindings
+	// only: single-document mode (used by the shrinker): checks that support it judge just this document
+	// with their direct oracles and skip generation and the model transcript
+	only    []byte
+	onlyEnv map[string]string
 }
 
 func (c *ctx) thorough() bool { return c.tier == "thorough" }
@@ -48,6 +52,9 @@ func main() {
 		c.res.Write(*out)
 		fmt.Fprintf(os.Stderr, "corr: %v\n", err)
 		os.Exit(3)
+	}
+	if supportsOnly[*prop] {
+		shrinkFirstFailure(c, f)
 	}
 	if err := c.res.Write(*out); err != nil {
 		fmt.Fprintln(os.Stderr, err)
